@@ -2,6 +2,7 @@ import ZapVerif.Model.SubEnc
 import ZapVerif.Proofs.Num
 import ZapVerif.Proofs.EntryWF
 import ZapVerif.Props.C15
+import ZapVerif.Proofs.Unesc
 /-! lemmas about the built-in sub-encoders (`Model/SubEnc.lean`): `time.Duration.String` — structure of `fmtFrac`, a
     `time.ParseDuration`-style reader and the proof that it reads every emitted text back; caller texts. -/
 namespace ZapVerif.SubEnc
@@ -618,5 +619,62 @@ theorem frac_no_trailing_zero (p v : Nat) (h : fracDigits p v false ≠ []) : (f
         simp [fracDigits, hb]
       simp only [e, List.getLast_append, List.getLast_singleton]
       exact digit_ne_zero _ (List.mem_range.mpr (Nat.mod_lt _ (by decide))) h0
+
+/-! ### JSON round trip of duration texts (the only non-ASCII bytes a built-in sub-encoder emits are the `µ` of "µs") -/
+
+theorem sanitize_ascii_append (pre rest : Bytes) (k : Nat) (h : ∀ b ∈ pre, b < 128) :
+    Esc.sanitize (pre.length + k) (pre ++ rest) = pre ++ Esc.sanitize k rest := by
+  induction pre with
+  | nil => simp
+  | cons b r ih =>
+    have hb : ¬ b ≥ 128 := by
+      have := h b (by simp)
+      simp [UInt8.lt_iff_toNat_lt, UInt8.le_iff_toNat_le] at this ⊢; omega
+    have e : (b :: r).length + k = (r.length + k) + 1 := by simp; omega
+    rw [e]
+    simp only [List.cons_append, Esc.sanitize, hb, if_false]
+    rw [ih (fun x hx => h x (by simp [hx]))]
+
+theorem isDig_ascii (c : UInt8) (h : isDig c = true) : c < 128 := by
+  simp [isDig, UInt8.lt_iff_toNat_lt, UInt8.le_iff_toNat_le] at h ⊢; omega
+
+theorem fmtNat_ascii (n : Nat) : ∀ b ∈ fmtNat n, b < 128 := fun b hb => isDig_ascii b (fmtNat_dig n b hb)
+
+theorem fracText_ascii (p v : Nat) : ∀ b ∈ fracText p v, b < 128 := by
+  intro b hb
+  unfold fracText at hb
+  split at hb
+  · simp at hb
+  · simp only [List.mem_cons] at hb
+    rcases hb with hb | hb
+    · rw [hb]; decide
+    · exact isDig_ascii b (fracDigits_dig p v false b hb)
+
+theorem sanitize_micro : Esc.sanitize 3 [194, 181, 115] = [194, 181, 115] := by decide +kernel
+
+theorem plain_level_ascii : ∀ l ∈ allLevels, (∀ b ∈ Level.stringOf l, b < 128) ∧ (∀ b ∈ Level.capitalOf l, b < 128) := by
+  decide +kernel
+
+/-- every level text — escape bytes of the colour variants included — is 7-bit -/
+theorem levelText_ascii (k : LvlEnc) : ∀ l ∈ allLevels, ∀ b ∈ levelText k l, b < 128 := by
+  intro l hl b hb
+  obtain ⟨h1, h2⟩ := plain_level_ascii l hl
+  obtain ⟨hp, hm, hs⟩ := color_pieces
+  have col : ∀ t : Bytes, (∀ b ∈ t, b < 128) → ∀ c, ∀ b ∈ colorAdd c t, b < 128 := by
+    intro t ht c b hb
+    unfold colorAdd at hb
+    rw [hp, hm, hs] at hb
+    simp only [List.mem_append] at hb
+    rcases hb with (((hb | hb) | hb) | hb) | hb
+    · revert b; decide
+    · exact fmtNat_ascii c b hb
+    · revert b; decide
+    · exact ht b hb
+    · revert b; decide
+  cases k with
+  | lower => exact h1 b hb
+  | capital => exact h2 b hb
+  | color => simp only [levelText, colorLevel_eq] at hb; exact col _ h1 _ b hb
+  | capitalColor => simp only [levelText, colorLevel_eq] at hb; exact col _ h2 _ b hb
 
 end ZapVerif.SubEnc
